@@ -874,9 +874,23 @@ class Engine:
     concretisation, so that replaying a prefix never depends on which model z3 returns.
     """
 
+    SHARD_DEPTH = 6
+
     def __init__(self):
         self.active = False
+        self.shard = None  # (i, n): explore only the subtrees whose first SHARD_DEPTH decisions hash to i mod n
         self.reset_stats()
+
+    def _shard_gate(self):
+        """work sharing between processes: every shard replays the tree down to SHARD_DEPTH
+        decisions and descends only into its own subtrees (the shards partition the paths)"""
+        if self.shard and self.n_forks == self.SHARD_DEPTH and not self.gated:
+            import zlib
+            self.gated = True
+            i, n = self.shard
+            if zlib.crc32(repr(self.trace).encode()) % n != i:
+                self.not_mine = True
+                raise PathAbort("subtree of another shard")
 
     def reset_stats(self):
         self.n_paths = 0
@@ -901,6 +915,9 @@ class Engine:
         self.active = True
         self._fresh = 0
         self.model = None  # a model known to satisfy everything asserted so far (or None)
+        self.not_mine = False
+        self.n_forks = 0  # decisions on this path at which both sides were feasible
+        self.gated = False
         self.pending = []  # deferred checks: (z3 cond, label, detail)
 
     def end(self):
@@ -942,10 +959,12 @@ class Engine:
             return True
         if z3.is_false(cond):
             return False
+        forked = False
         if self.pos < len(self.prefix):
             d = self.prefix[self.pos]
-            if not isinstance(d, bool):
+            if not (isinstance(d, tuple) and isinstance(d[0], bool)):
                 raise EngineLimit("non-deterministic replay (branch vs concretize)")
+            d, forked = d
         else:
             known = self._model_says(cond)
             if known is True:
@@ -964,8 +983,9 @@ class Engine:
                     if can_f:
                         self.model = self.solver.model()
             if can_t and can_f:
-                self.work.append(self.trace + [False])
+                self.work.append(self.trace + [(False, True)])
                 d = True
+                forked = True
                 if PROFILE_SITES:
                     self._site("branch")
             elif can_t:
@@ -976,10 +996,12 @@ class Engine:
                 raise PathAbort()
         self.pos += 1
         self.n_decisions += 1
-        self.trace.append(d)
+        self.n_forks += forked
+        self.trace.append((d, forked))
         self.solver.add(cond if d else z3.Not(cond))
         if self.model is not None and self._model_says(cond) is not d:
             self.model = None
+        self._shard_gate()
         return d
 
     def concretize(self, x):
@@ -991,7 +1013,7 @@ class Engine:
             return t.as_signed_long()
         if self.pos < len(self.prefix):
             d = self.prefix[self.pos]
-            if isinstance(d, bool):
+            if isinstance(d[0], bool):
                 raise EngineLimit("non-deterministic replay (concretize vs branch)")
             if d[0] == "eq":
                 v = d[1]
@@ -1017,9 +1039,11 @@ class Engine:
                 self._site("concretize")
         self.pos += 1
         self.n_decisions += 1
+        self.n_forks += 1
         self.trace.append(("eq", v))
         if self.model is not None and self._model_says(x.t == v) is not True:
             self.model = None
+        self._shard_gate()
         return v
 
     def assume(self, c):
